@@ -42,7 +42,7 @@ CHECKS = {
     "C08": dict(
         technique="static analysis: element-wise symbolic execution of the NAC kernels' loop nests over the clang-14 JSON AST (literal-bound loops unrolled, size-bound loops run once for a generic index, array cells as patterns, callees inlined) giving closed sympy forms of a generic array element; homogeneity tests by substitution (direction -> s direction, Born -> s Born); who-writes and subscript-dependence rules; open-term comparison of the Python fallback with the same closed form",
         level="other",
-        text="Decides the zone-centre clauses for both methods: the term added along a direction n is nac_factor (n.Z_j)_a (n.Z_j')_b / (n.eps.n) (Wang: kernel and Python fallback, per image 1/N; Gonze-Lee: the G+q=0 term n_a n_b/(n.eps.n) dressed by multiply_borns), it is homogeneous of degree 0 in n -- hence independent of the length of n --, every correction term is bilinear in the Born charges -- hence zero charges switch it off --, and the Wang addend is the same for all supercell images of a primitive atom, which is what makes it cancel at non-zero commensurate q. Does not decide the cancellation of the Gonze-Lee reciprocal sum at commensurate points (a lattice-sum identity realised by a run-time G list), its stated precision, or the mass weighting / eigenvalues.",
+        text="Decides the zone-centre clauses for both methods: the term added along a direction n is nac_factor (n.Z_j)_a (n.Z_j')_b / (n.eps.n) (Wang: kernel and Python fallback, per image 1/N; Gonze-Lee: the G+q=0 term n_a n_b/(n.eps.n) dressed by multiply_borns), it is homogeneous of degree 0 in n -- hence independent of the length of n --, every correction term is bilinear in the Born charges -- hence zero charges switch it off --, the Wang addend is the same for all supercell images of a primitive atom, which is what makes it cancel at non-zero commensurate q, and the Gonze-Lee short-range force constants are built from dynamical matrices, dipole terms and an inverse transform that all use the same representatives of the commensurate points. Does not decide the cancellation of the Gonze-Lee reciprocal sum at commensurate points (a lattice-sum identity realised by a run-time G list), its stated precision, or the mass weighting / eigenvalues.",
         note="Trusted: clang-14 JSON AST, sympy. Assumption printed in the evidence: dd_q0 comes from the same Born dressing. The zone-centre switch tolerance is compared across languages under C13 (R13e).",
         ref="DESIGN.md §3 C08",
     ),
